@@ -109,6 +109,14 @@ def build_databases(root):
     env.add_resource({'lmf_version': '1.3', 'lexicons': [docs.maximal('1.3'), docs.second_lexicon('1.3')]})
     env.add_resource({'lmf_version': '1.0', 'lexicons': [docs.maximal('1.0', lid='mo')]})
     out['max'] = d
+    # DB 'hx': a base and its extension, the extension being the newest lexicon (histories that re-use its rowid)
+    d = os.path.join(root, 'hx')
+    os.makedirs(d)
+    env.close_pool()
+    wn.config.data_directory = d
+    env.add_resource(R['A1'])
+    env.add_resource(R['X1'])
+    out['hx'] = d
     # DB 'inf': lexicon p:1 has three bare synsets; its hypernym structure comes from the expand lexicon q:1
     # through ILIs, most of it as *INFERRED* synsets (all of which, like *ROOT*, have the same internal id):
     # two lowest common hypernyms at different distances, both inferred
@@ -271,6 +279,51 @@ def items(dirs):
     for db, spec in (('tax', 't:1'), ('max', 'mx:1.0+a'), ('max', 'mo:1.0+a'), ('uni', 'a:1'), ('uni', 'c:1 b:1')):
         for v in ('1.0', '1.3'):
             add(f'export:{db}:{spec}:{v}', db, lambda db=db, spec=spec, v=v: export_bytes(db, spec, v))
+    # --- histories in one process on one database: reads, then the newest lexicon is removed and another one
+    #     added (it takes over the freed rowid), then the same reads again. The ':cold' twin does not read first;
+    #     both must report the same - "read-only calls do not change the result of later calls"
+    def reads():
+        w = W()
+        out_ = [wn.lexicons(), [[lx, lx.extends(), lx.extensions(), lx.requires()] for lx in wn.lexicons()]]
+        for x in w.words() + w.senses() + w.synsets():
+            out_.append([x, x.lexicon()])
+        for s_ in w.senses():
+            out_.append([s_, s_.word(), s_.synset(), [(r, r.lexicon()) for r in s_.relation_map()]])
+        for x in w.synsets():
+            out_.append([x, x.senses(), x.words(), x.hypernyms(), x.relations(), list(x.closure('hypernym')),
+                         [(r, r.lexicon()) for r in x.relation_map()], x.ili and [x.ili.id, x.ili.status]])
+        w2 = W(expand='')
+        for x in w2.synsets():
+            out_.append([x, x.get_related(), x.lemmas()])
+        return out_
+
+    newlex = mk.lexicon('n', '7', 'en', entries=[mk.entry('n-e1', 'alpha', 'n', senses=[mk.sense('n-s1', 'n-ss1'), mk.sense('n-s2', 'n-ss2')])],
+                        synsets=[mk.synset('n-ss1', 'n', 'i1', relations=[mk.rel('n-ss2', 'hypernym')]),
+                                 mk.synset('n-ss2', 'n', 'i2', relations=[mk.rel('n-ss1', 'hyponym')])])
+
+    def history(db, gone, warm):
+        def run():
+            from wnmc import env
+            src = dirs[db]
+            tmp = tempfile.mkdtemp(prefix='wnmc16h', dir=os.path.dirname(src))
+            try:
+                shutil.copytree(src, os.path.join(tmp, 'd'))
+                env.close_pool()
+                wn.config.data_directory = os.path.join(tmp, 'd')
+                if warm:
+                    reads()
+                for g_ in gone:
+                    wn.remove(g_, progress_handler=None)
+                env.add_resource(mk.resource([newlex], '1.3'))
+                return reads()
+            finally:
+                env.close_pool()
+                wn.config.data_directory = src
+                shutil.rmtree(tmp, ignore_errors=True)
+        return run
+    for db, gone in (('uni', ['d:1']), ('uni', ['d:1', 'c:1', 'b:1', 'y:1']), ('hx', ['x:1'])):
+        for warm in (False, True):
+            add(f'hist:{db}:remove {" ".join(gone)}:add n:7:{"warm" if warm else "cold"}', db, history(db, gone, warm))
     add('scan+load', 'tax', lambda: (lambda p: [lmf.scan_lexicons(p), lmf.load(p, progress_handler=None)['lexicons'][0]['entries'][0]])(_write_max()))
     return out
 
